@@ -444,6 +444,8 @@ def decompress_destripe_cbin(
 
     SAMPLES_TAPER = 1024
     NBATCH = nbatch or 65536
+    if NBATCH <= 2 * SAMPLES_TAPER:
+        raise ValueError(f"nbatch must be larger than the two taper margins ({2 * SAMPLES_TAPER} samples), got {NBATCH}")
     # handles input parameters
     reader_kwargs = {} if reader_kwargs is None else reader_kwargs
     sr = spikeglx.Reader(sr_file, open=True, **reader_kwargs)
